@@ -1,4 +1,5 @@
 import Peppi.Props.C11
+#print axioms Peppi.Props.C11.C10_any_agree
 #print axioms Peppi.Props.C11.C11_range_A
 #print axioms Peppi.Props.C11.readExactS_flat
 #print axioms Peppi.Props.C11.formatHash_length
